@@ -3,6 +3,7 @@
     Sink/ReaderProofs.v, the models in Sink/Model.v and Sink/Reader.v. *)
 From Coq Require Import List NArith Bool Arith Lia.
 From PQ Require Import Sink.Model Sink.Proofs Sink.Termination Sink.Reader Sink.ReaderProofs.
+From PQ Require Import Sink.Liveness Sink.Copy Sink.CopyProofs Sink.Demand Sink.DemandProofs.
 Import ListNotations.
 Open Scope N_scope.
 
@@ -265,3 +266,249 @@ Theorem C14_pinned_page_boundary_eof_refuted :
     snd (read_pages false size avail1 0 pages) <> PUnexpected /\
     snd (read_pages false size avail2 0 pages) <> PUnexpected.
 Proof. exists [(3, 7); (3, 7); (3, 7)], 30, 20, 23. vm_compute. repeat split; discriminate. Qed.
+
+(** ** Liveness: a destination that never fails *)
+
+(** For every list of write sites (any cutting of the bytes into
+    Write/WriteString calls, any of the four transfer mechanisms, i.e. any page
+    buffer pool), with and without the bufio layer of any size >= 1
+    (WriteBufferSize(0) is the writer without bufio.Writer), on the destination
+    that never fails: no site returns an error (the run reaches the end,
+    i = number of sites, so the calls of every prefix of the life returned nil
+    as well), the final flush of Close returns nil, and the destination holds
+    exactly the concatenation of all modules.  With
+    C14_close_nil_means_complete (its converse direction for the bytes) this
+    is: Close = nil iff nothing failed, and then the file is complete. *)
+Theorem C14_fault_free_complete :
+  all_sites_checked = true ->
+  forall (A : Type) (bufsize : option N) (xs : list (site A)) t' e i,
+  (forall sz, bufsize = Some sz -> 1 <= sz) ->
+  close_current A NoFault bufsize xs = (t', e, i) ->
+  e = ENone /\ i = length xs /\ sink_bytes A (snk t') = all_data A xs.
+Proof.
+  intros H A bs xs t' e i Hbs. destruct (checked_all H) as [Hk Hf].
+  exact (fault_free_complete A site_checked final_flush_checked Hk Hf bs xs t' e i Hbs).
+Qed.
+
+(** ** The copy path (Writer.WriteRowGroup streaming column chunks from a source) *)
+
+(** Scripts of items (Sink/Copy.v): ordinary write sites, sections copied from
+    the source straight to the output (dictionary page, data pages, bloom
+    filter; copySection), bloom filters staged in deferred buffers (copied or
+    built), the flush of the deferred buffers by Close.  A copied section has a
+    declared length n (from the source's footer; it is what the new footer
+    records) and the source delivers its first avail bytes only.
+    (1) All calls returned nil: the destination holds every module with its
+        declared length, and no source was short — for every fault script of
+        the destination and every buffer size.
+    (2) Hence a short source is always reported (by WriteRowGroup or Close).
+    (3) With a destination that does not fail it is reported as
+        io.ErrUnexpectedEOF by the very call that copies (or stages) the first
+        short section, i.e. by WriteRowGroup. *)
+Theorem C14_copy_source_short_reported :
+  all_sites_checked = true ->
+  forall (A : Type) (f : fault) (bufsize : option N) (xs : list (item A)),
+  (forall t' i, copy_current A f bufsize xs = (t', CNil, i) ->
+     sink_bytes A (snk t') = declared A [] xs /\ has_short A xs = false) /\
+  (has_short A xs = true ->
+     forall t' e i, copy_current A f bufsize xs = (t', e, i) -> e <> CNil) /\
+  (forall k, (forall sz, bufsize = Some sz -> 1 <= sz) -> first_short A 0 xs = Some k ->
+     forall t' e i, copy_current A NoFault bufsize xs = (t', e, i) -> e = CSrc /\ i = k).
+Proof.
+  intros H A f bs xs. destruct (checked_all H) as [Hk Hf].
+  unfold copy_current. rewrite Hf. repeat split.
+  - exact (proj1 (copy_nil_means_complete A site_checked Hk f bs xs t' i H0)).
+  - exact (proj2 (copy_nil_means_complete A site_checked Hk f bs xs t' i H0)).
+  - intros Hs t' e i. exact (copy_source_short_reported A site_checked Hk f bs xs t' e i Hs).
+  - exact (proj1 (copy_short_reported_by_copying_call A site_checked bs xs k t' e i H0 H1 H2)).
+  - exact (proj2 (copy_short_reported_by_copying_call A site_checked bs xs k t' e i H0 H1 H2)).
+Qed.
+
+(** liveness and destination faults on the copy path *)
+Theorem C14_copy_fault_free_complete :
+  all_sites_checked = true ->
+  forall (A : Type) (bufsize : option N) (xs : list (item A)) t' e i,
+  (forall sz, bufsize = Some sz -> 1 <= sz) -> has_short A xs = false ->
+  copy_current A NoFault bufsize xs = (t', e, i) ->
+  e = CNil /\ i = length xs /\ sink_bytes A (snk t') = declared A [] xs.
+Proof.
+  intros H A bs xs t' e i Hbs Hs. destruct (checked_all H) as [Hk Hf].
+  unfold copy_current. rewrite Hf.
+  exact (copy_fault_free_complete A site_checked Hk bs xs t' e i Hbs Hs).
+Qed.
+
+Theorem C14_copy_sink_fault_surfaces :
+  all_sites_checked = true ->
+  forall (A : Type) (bufsize : option N) (xs : list (item A)) (k : N) t' e i,
+  k < nlen A (declared A [] xs) ->
+  copy_current A (ErrAt k) bufsize xs = (t', e, i) -> e <> CNil.
+Proof.
+  intros H A bs xs k t' e i Hk. destruct (checked_all H) as [Hc Hf].
+  unfold copy_current. rewrite Hf.
+  exact (copy_err_fault_surfaces A site_checked Hc k bs xs t' e i Hk).
+Qed.
+
+(* the items which are ordinary sites are the model of Sink/Model.v *)
+Theorem C14_copy_model_extends_sites : forall (A : Type) cur cnt chk (xs : list (site A)) i t q,
+  run_items A cur cnt chk i t q (map IPlain xs) =
+  let '(t', e, j) := run_sites A cur chk i t xs in (t', if is_err e then CDst e else CNil, j).
+Proof. exact run_items_plain. Qed.
+
+Print Assumptions C14_fault_free_complete.
+Print Assumptions C14_copy_source_short_reported.
+Print Assumptions C14_copy_fault_free_complete.
+Print Assumptions C14_copy_sink_fault_surfaces.
+Print Assumptions C14_copy_model_extends_sites.
+
+(** ** The reader's demand *)
+
+(** The byte ranges OpenFile and a read of every page of every column chunk
+    request from the io.ReaderAt, computed from the footer's chunk table
+    (Sink/Demand.v: magic, trailer, footer, the two page index spans, bloom
+    filter headers, and the reads of the buffered reader over every chunk):
+    (1) every requested range lies inside a range the footer (with the size
+        given to OpenFile) declares;
+    (2) when the pages of every chunk add up to its TotalCompressedSize, a file
+        image p shorter than the end of a needed declared range (magic,
+        trailer, footer, page index spans, column chunks) makes some requested
+        read return short: the sequence of reads fails (read_all = None, i.e.
+        by C14_readat_never_masks the error of the io.ReaderAt is returned). *)
+Theorem C14_full_read_needs_declared_ranges : forall t,
+  1 <= ft_bufsize t ->
+  (forall r, In r (full_demand t) -> exists d, In d (declared_ranges t) /\ inside r d) /\
+  (chunks_tile t ->
+   forall d p, In d (needed_ranges t) -> 0 < snd d -> flen p < fst d + snd d ->
+   read_all p (full_demand t) = None).
+Proof.
+  intros t HB. split.
+  - intros r. exact (demand_inside_declared t r HB).
+  - intros Ht d p. exact (full_read_of_cut_file_fails t d p HB Ht).
+Qed.
+
+(* and every byte of every column chunk is requested *)
+Theorem C14_full_read_requests_every_chunk_byte : forall t c x,
+  1 <= ft_bufsize t -> chunks_tile t -> In c (ft_rows t) ->
+  ck_start c <= x < ck_start c + ck_size c ->
+  exists r, In r (read_demand t) /\ fst r <= x < fst r + snd r.
+Proof. exact chunk_fully_requested. Qed.
+
+Print Assumptions C14_full_read_needs_declared_ranges.
+Print Assumptions C14_full_read_requests_every_chunk_byte.
+
+(** ** Non-vacuity of the additions *)
+
+(* a copy of one row group of two columns with bloom filters, 93 bytes: magic,
+   copied dictionary page and data pages of column 0, copied data pages of
+   column 1, the two bloom filters copied straight to the output, page index,
+   footer *)
+Definition ex_copy (a : N) : list (item N) :=
+  [ IPlain (mkSite KHeader MWrite [(true, bs 0 4)]);
+    ICopied KCopiedDict [(false, bs 4 10)] 10;
+    ICopied KCopiedData [(false, bs 14 20)] a;
+    ICopied KCopiedData [(false, bs 34 15)] 15;
+    ICopied KCopiedBloom [(false, bs 49 12)] 12;
+    ICopied KCopiedBloom [(false, bs 61 12)] 12;
+    IPlain (mkSite KColumnIndex MWrite [(false, bs 73 1); (true, bs 74 3)]);
+    IPlain (mkSite KOffsetIndex MWrite [(false, bs 77 2)]);
+    IPlain (mkSite KFooter MWrite [(false, bs 79 1); (true, bs 80 5)]);
+    IPlain (mkSite KFooterTail MWrite [(false, bs 85 8)]) ].
+
+(* the same with the bloom filters staged in deferred buffers (the second one
+   delivers b bytes) and written by Close in 8-byte chunks *)
+Definition ex_copy_deferred (b : N) : list (item N) :=
+  [ IPlain (mkSite KHeader MWrite [(true, bs 0 4)]);
+    ICopied KCopiedDict [(false, bs 4 10)] 10;
+    ICopied KCopiedData [(false, bs 14 20)] 20;
+    ICopied KCopiedData [(false, bs 34 15)] 15;
+    IStage [(false, bs 49 8); (false, bs 57 4)] 12;
+    IStage [(false, bs 61 8); (false, bs 69 4)] b;
+    IFlushDeferred MLowerWriteTo;
+    IPlain (mkSite KColumnIndex MWrite [(false, bs 73 1); (true, bs 74 3)]);
+    IPlain (mkSite KOffsetIndex MWrite [(false, bs 77 2)]);
+    IPlain (mkSite KFooter MWrite [(false, bs 79 1); (true, bs 80 5)]);
+    IPlain (mkSite KFooterTail MWrite [(false, bs 85 8)]) ].
+
+Example C14_ex_copy_complete :
+  forallb (fun b => let '(e, i, pos, complete) := copy_verdict true NoFault b (ex_copy 20) in
+                    negb (is_cerr e) && complete && (pos =? 93) && Nat.eqb i 10)
+          [None; Some 1; Some 7; Some 100] = true /\
+  forallb (fun b => let '(e, i, pos, complete) := copy_verdict true NoFault b (ex_copy_deferred 12) in
+                    negb (is_cerr e) && complete && (pos =? 93) && Nat.eqb i 11)
+          [None; Some 1; Some 7; Some 100] = true.
+Proof. vm_compute. split; reflexivity. Qed.
+
+(* the source of the data pages of column 0 ends after 7 of 20 bytes: reported
+   by the item that copies them (index 2), 21 bytes reached the destination *)
+Example C14_ex_copy_short_reported :
+  has_short N (ex_copy 7) = true /\ first_short N 0 (ex_copy 7) = Some 2%nat /\
+  copy_verdict true NoFault None (ex_copy 7) = (CSrc, 2%nat, 21, false) /\
+  copy_verdict true NoFault (Some 100) (ex_copy 7) = (CSrc, 2%nat, 0, false).
+Proof. vm_compute. repeat split; reflexivity. Qed.
+
+(* a short source of a deferred bloom filter is reported when it is staged *)
+Example C14_ex_copy_deferred_short_reported :
+  copy_verdict true NoFault None (ex_copy_deferred 5) = (CSrc, 5%nat, 49, false).
+Proof. vm_compute. reflexivity. Qed.
+
+(* a failing destination on the copy path: reported by the copying item *)
+Example C14_ex_copy_sink_fault : copy_verdict true (ErrAt 40) None (ex_copy 20) = (CDst ESink, 3%nat, 40, false).
+Proof. vm_compute. reflexivity. Qed.
+
+(** The copy path of the tree before commit 9565563 (`_, err :=
+    w.writer.ReadFrom(io.NewSectionReader(...))`, `_, err := io.Copy(buf,
+    bloom)`: io.Copy takes the io.EOF of a source that ends early for the end
+    of its input) refutes C14_copy_source_short_reported: with a destination
+    that never fails every call returns nil, the footer describes 93 bytes and
+    the destination holds 80 (86 in the deferred variant, where the truncated
+    bloom filter is recorded with its truncated length). *)
+Theorem C14_pinned_copy_short_source_refuted :
+  (exists (xs : list (item N)) t' i,
+     has_short N xs = true /\ copy_pinned N NoFault None xs = (t', CNil, i) /\
+     sink_bytes N (snk t') <> declared N [] xs) /\
+  (exists (xs : list (item N)) t' i,
+     has_short N xs = true /\ copy_pinned N NoFault (Some 16) xs = (t', CNil, i) /\
+     sink_bytes N (snk t') <> declared N [] xs).
+Proof.
+  split.
+  - exists (ex_copy 7).
+    destruct (copy_pinned N NoFault None (ex_copy 7)) as [[t' e] i] eqn:E.
+    exists t', i. split; [vm_compute; reflexivity|].
+    vm_compute in E. inversion E; subst; clear E. split; [reflexivity|].
+    vm_compute. discriminate.
+  - exists (ex_copy_deferred 5).
+    destruct (copy_pinned N NoFault (Some 16) (ex_copy_deferred 5)) as [[t' e] i] eqn:E.
+    exists t', i. split; [vm_compute; reflexivity|].
+    vm_compute in E. inversion E; subst; clear E. split; [reflexivity|].
+    vm_compute. discriminate.
+Qed.
+
+Example C14_ex_pinned_copy_verdicts :
+  copy_verdict false NoFault None (ex_copy 7) = (CNil, 10%nat, 80, false) /\
+  copy_verdict false NoFault None (ex_copy_deferred 5) = (CNil, 11%nat, 86, false).
+Proof. vm_compute. split; reflexivity. Qed.
+
+(* a file of 200 bytes: two column chunks (a dictionary page and two data pages;
+   one data page), page index, one bloom filter, a footer of 40 bytes; buffered
+   readers of 16 bytes *)
+Definition ex_table : ftable :=
+  mkTable 200 40 16
+    [ mkChunk 4 60 [(5, 9); (6, 20); (6, 14)] (110, 12) (130, 8) (90, 14);
+      mkChunk 64 26 [(6, 20)] (122, 8) (138, 6) (0, 0) ].
+
+Example C14_ex_demand :
+  full_demand ex_table =
+    [(0, 4); (192, 8); (152, 40); (110, 20); (130, 14); (90, 16);
+     (4, 16); (20, 16); (36, 16); (52, 12);
+     (64, 16); (80, 10)].
+Proof. vm_compute. reflexivity. Qed.
+
+Example C14_ex_table_tiles : chunks_tile ex_table.
+Proof. intros c [<-|[<-|[]]]; vm_compute; reflexivity. Qed.
+
+(* the first chunk is a needed range: an image of 63 bytes (one byte short of
+   its end) cannot be read completely, whatever it contains *)
+Example C14_ex_cut_chunk_fails : forall p, flen p = 63 -> read_all p (full_demand ex_table) = None.
+Proof.
+  intros p Hp. destruct (C14_full_read_needs_declared_ranges ex_table) as [_ H]; [vm_compute; discriminate|].
+  apply (H C14_ex_table_tiles (4, 60)); [vm_compute; tauto|cbn; lia|cbn; lia].
+Qed.
